@@ -140,4 +140,55 @@ def faultEvidenceKeysUnguarded (commitRound : Int) (proposerNil faultValNil : Bo
      else if proposerNil then .error (.panic "consensus.(*ConsensusState).checkFaultValEvidence") else .ok .accepted)
   else if faultValNil ∨ proposerNil then .error (.panic "consensus.(*ConsensusState).checkFaultValEvidence") else .ok .accepted
 
+/-! ### defaultSetProposal as a whole: the recover branch runs BEFORE the signature check -/
+
+inductive PType where
+  | normal | recover | other
+deriving Repr, DecidableEq
+
+/-- what C16 says an invalid input must leave alone, as far as `defaultSetProposal` touches it -/
+structure ConsView where
+  height : Nat
+  round : Int
+  hasProposal : Bool        -- cs.Proposal != nil
+  commitStep : Bool         -- cstypes.RoundStepCommit <= cs.Step
+  stepRecover : Bool
+  recoverCount : Nat        -- cs.recover
+  recoverSet : Bool         -- cs.Validators was replaced by NewValidatorSet(GetRecoverValidators(height-1))
+  votesHeld : Nat           -- votes in cs.Votes (replaced by an EMPTY HeightVoteSet in the recover branch)
+deriving Repr, DecidableEq
+
+structure ProposalIn where
+  type : PType
+  height : Nat
+  round : Int
+  polRound : Int
+  total : Int
+  sigOk : Bool              -- the signature verifies against the proposer of cs.Validators AT THE TIME IT IS CHECKED
+deriving Repr, DecidableEq
+
+/-- `timeoutRecoverLimit`, minutes -/
+def recoverLimit : Nat := 12
+
+/-- `defaultSetProposal` as the code is (consensus/state.go), `elapsed` = whole minutes of wall clock since cs.StartTime.
+Order of the code kept: proposal already held; the RECOVER branch (height/round test, time test, then timer reset,
+stepRecover, validators and votes replaced, enterNewRound(height, Round+1) which bumps the recover counter and clears the
+proposal fields); only then height/round, commit step, POL round, part-set total, SIGNATURE. -/
+def setProposalFull (st : ConsView) (p : ProposalIn) (elapsed : Nat) (maxParts : Int) : ConsView × Reply :=
+  if st.hasProposal then (st, .rejected "already have a proposal")
+  else
+    let go (st' : ConsView) : ConsView × Reply :=
+      if p.height ≠ st'.height ∨ p.round ≠ st'.round then (st', .rejected "does not apply")
+      else if st'.commitStep then (st', .rejected "already in commit step")
+      else if p.polRound ≠ -1 ∧ (p.polRound < 0 ∨ p.round ≤ p.polRound) then (st', .rejected "ErrInvalidProposalPOLRound")
+      else if p.total ≤ 0 ∨ p.total > maxParts then (st', .rejected "ErrInvalidProposalPartsHeader")
+      else if !p.sigOk then (st', .rejected "ErrInvalidProposalSignature")
+      else ({ st' with hasProposal := true }, .accepted)
+    if p.type = .recover ∧ st.stepRecover = false then
+      if p.height ≠ st.height ∨ p.round ≤ st.round then (st, .rejected "height or round mismatch")
+      else if elapsed < recoverLimit then (st, .rejected "not the right time")
+      else go { st with stepRecover := true, recoverSet := true, votesHeld := 0, round := st.round + 1,
+                        recoverCount := st.recoverCount + 1, commitStep := false }
+    else go st
+
 end Model.PeerInput
